@@ -40,6 +40,14 @@ def check_sf(sc, c):
     ok = ~np.isnan(exp)
     if not np.allclose(g3[ok], 9 * exp[ok], rtol=1e-12, atol=1e-12):
         bad.append(("structure_function:quadratic", dict(got=g3.tolist())))
+    # memory layout is not part of the input: Fortran order, a transposed view of the transposed copy, a strided view
+    big = np.zeros((ph.shape[0], 2 * ph.shape[1]))
+    big[:, ::2] = ph
+    for label, arr in (("fortran-order", np.asfortranarray(ph)), ("transposed-view", np.ascontiguousarray(ph.T).T), ("strided-view", big[:, ::2])):
+        gl = np.asarray(sc.calculate_structure_function(arr, nbOfPoint=nb, step=c["step"]), float)
+        if gl.shape != exp.shape or not np.allclose(gl[ok], exp[ok], rtol=1e-12, atol=1e-12):
+            bad.append(("structure_function:lag-value:" + label, dict(got=gl.tolist(), expected=exp.tolist())))
+            break
     # only differences enter the definition: a constant (piston) of any size added to the phase changes nothing
     for piston in (2.0 ** 17, 2.0 ** 25, 2.0 ** 27 * 3, -2.0 ** 30):
         gp = np.asarray(sc.calculate_structure_function(ph + piston, nbOfPoint=nb, step=c["step"]), float)
@@ -89,6 +97,15 @@ def check_tps(tp, c):
     if mb.shape != (2,) + exp.shape or not np.allclose(mb[0], mean, rtol=0, atol=1e-9 * scale) \
             or not np.allclose(mb[1], 4 * mean, rtol=0, atol=4e-9 * scale):
         bad.append(("temporalps:batch-axis", dict(got=mb.tolist())))
+    # two leading axes (sensor, slope direction), equal and unequal extents: entry [a, b] is the spectrum of slope_data[a, b]
+    for A, B in ((2, 3), (2, 2)):
+        fac = 1.0 + np.arange(A * B).reshape(A, B)
+        cube = fac[:, :, None, None] * x[None, None]
+        mc = np.asarray(tp.calc_slope_temporalps(cube)[0], float)
+        want = (fac ** 2)[:, :, None] * mean[None, None]
+        if mc.shape != want.shape or not np.allclose(mc, want, rtol=0, atol=1e-9 * scale * fac.max() ** 2):
+            bad.append(("temporalps:batch-axis:two-leading-axes", dict(shape=list(mc.shape), expected_shape=list(want.shape))))
+            break
     return bad
 
 
